@@ -17,7 +17,7 @@
    temporary file). *)
 From Coq Require Import List NArith ZArith.
 From WV Require Import Lib.PyBytes Model.Buffers Spec.Fifo
-  Proof.Buffers Proof.BuffersRefine Proof.BuffersRo Proof.BuffersExamples.
+  Proof.Buffers Proof.BuffersRefine Proof.BuffersRo Proof.BuffersFault Proof.BuffersExamples.
 Import ListNotations.
 Local Open Scope Z_scope.
 
@@ -114,6 +114,48 @@ Theorem C17_after_close : forall limit ovf ops more, Forall live ops ->
      forall p b, snd (step limit ovf o' p) <> RBytes b).
 Proof. exact after_close. Qed.
 Print Assumptions C17_after_close.
+
+(* Operating-system faults at a representation change (Proof/BuffersFault.v).
+   [step_f flt] is [step] with the environment interfering while the operation
+   constructs a new file based buffer; [step] is [step_f FNone].
+
+   FCtor k: creating the file object of the new buffer of kind k raises (KTmp:
+   TemporaryFile() with EMFILE / ENOSPC / EACCES; KBio: BytesIO() with MemoryError),
+   at any operation of any history.  If the
+   operation answers the fault, the exception has propagated, the invariant holds,
+   the buffer holds the queue it held before -- or, for an append() in a file
+   representation, that queue plus the appended bytes (buf.append(s) precedes the
+   spill) --, len is truthful, and every continuation refines the FIFO queue again.
+   If it does not answer the fault the operation built nothing and is [step].
+   This is the statement [fault_atomicity] for every FCtor k; it is FALSE for
+   FCopyWrite (known finding kf_c17_spill_copy_fault), see the next theorem. *)
+Theorem C17_fault_atomicity_partial :
+  forall k limit ovf ops p more, Forall live ops -> live p -> Forall live more ->
+  let o := exec limit ovf o_new ops in
+  let q := q_exec_op q_empty ops in
+  let r := step_f (FCtor k) limit ovf o p in
+  let o' := fst r in
+  (snd r <> RExn OSFault -> r = step limit ovf o p) /\
+  (snd r = RExn OSFault ->
+     inv o' /\
+     (abs o' = q \/ exists s, p = OAppend s /\ abs o' = q ++ s) /\
+     o_len o' = q_len (abs o') /\
+     let o'' := exec limit ovf o' more in
+     inv o'' /\ abs o'' = q_exec_op (abs o') more /\ o_len o'' = q_len (abs o'') /\
+     forall p', live p' -> out_ok (abs o'') p' (snd (step limit ovf o'' p'))).
+Proof. exact fault_ctor_history. Qed.
+Print Assumptions C17_fault_atomicity_partial.
+
+(* FCopyWrite: the copy loop's file.write raises while a BytesIO is being spilled to
+   a temporary file (ENOSPC).  FileBasedBuffer.__init__ has rewound and read the
+   source file and does not put its position back, and self.buf is still that
+   source: STRBUF_LIMIT 4, overflow 6, append 5 bytes, append 2 bytes with the
+   fault -> len() = 7 but get() yields nothing (Proof/BuffersFault.v,
+   fault_copy_write_refuted; BuffersExamples.ex_fault_copy_write).  The file's
+   content is complete, only its position is wrong (fault_copy_write_content). *)
+Theorem C17_fault_atomicity_refuted : ~ fault_atomicity FCopyWrite.
+Proof. exact fault_copy_write_not_atomic. Qed.
+Print Assumptions C17_fault_atomicity_refuted.
 
 (* ReadOnlyFileBasedBuffer: prepare(size) leaves the wrapped file where it was and
    answers P <= size; from then on the buffer is the FIFO queue that initially
